@@ -500,6 +500,39 @@ def _random_binary(rng, n):
     return tuple(pid)
 
 
+def check_populations(rep, layout):
+    """layout: list of populations, each a list of (pid, xyz).  extract_feature(Populations(..)).get(name) is one zero-padded block
+    (population, tree, value); compared with the single-tree front end of the library for three list-valued / scalar features."""
+    from swcgeom.analysis import extract_feature
+    from swcgeom.core import Population, Populations
+
+    def tree_of(pid, xyz):
+        n = len(pid)
+        return make_tree(pid, xyz, default_r(n), default_types(n))
+
+    spec = dict(kind="populations", layout=[[spec_of(pid, xyz, default_r(len(pid)), default_types(len(pid))) for pid, xyz in pop] for pop in layout])
+    ok, fe = rep.guarded("extract_feature", spec, lambda: extract_feature(Populations([Population([tree_of(p, x) for p, x in pop]) for pop in layout])))
+    if not ok:
+        return
+    nrow = max(len(pop) for pop in layout)  # every tree of every population gets its row; shorter populations are padded with zero rows
+    for name in ("length", "node_radial_distance", "branch_length"):
+        sp = dict(spec, feature=name)
+        ok, got = rep.guarded("PopulationsFeatureExtractor.get", sp, lambda: np.asarray(fe.get(name)))
+        if not ok:
+            continue
+        want_rows = [[np.atleast_1d(np.asarray(extract_feature(tree_of(p, x)).get(name), dtype=np.float32)) for p, x in pop[:nrow]] for pop in layout]
+        lmax = max(len(v) for rows in want_rows for v in rows)
+        if tuple(got.shape) != (len(layout), nrow, lmax):
+            rep.v("PopulationsFeatureExtractor.get", "population-zero-padded", sp, dict(shape=list(got.shape)), dict(shape=[len(layout), nrow, lmax]))
+            continue
+        for i, rows in enumerate(want_rows):
+            for j, v in enumerate(rows):
+                if not (np.allclose(got[i, j, : len(v)], v, rtol=1e-5, atol=1e-6) and not np.any(got[i, j, len(v):])):
+                    rep.v("PopulationsFeatureExtractor.get", "population-zero-padded", dict(sp, population=i, row=j), got[i, j], dict(values=v, padded_to=lmax))
+            if np.any(got[i, len(rows):]):
+                rep.v("PopulationsFeatureExtractor.get", "population-zero-padded", dict(sp, population=i), got[i, len(rows):], "zero rows beyond the population's last tree")
+
+
 def run(ctx):
     rep = Rep(ctx)
     notes = set()
@@ -514,6 +547,10 @@ def run(ctx):
         trio = [pool[0]] + rng.sample(pool, 2) if k == 0 else rng.sample(pool, 3)
         check_population(rep, trio)
         ctx.case("population", dict(pids=[list(p) for p, _ in trio], k=k), nontrivial=True)
+    for k, sizes in enumerate([[1], [2], [1, 1], [2, 1], [3, 3], [1, 2, 1]]):  # Populations front end, down to ONE tree in total
+        layout = [[rng.choice(pool) for _ in range(m)] for m in sizes]
+        check_populations(rep, layout)
+        ctx.case("populations", dict(sizes=sizes, pids=[[list(p) for p, _ in pop] for pop in layout]), nontrivial=True)
     for s in sorted(notes):
         ctx.notes.append(s)
     ctx.notes.append("LMeasure methods that raise unconditionally (not evaluated): " + ", ".join(UNCONDITIONAL_RAISERS))
@@ -524,7 +561,7 @@ def run(ctx):
         ctx.notes.append(f"{rep.count} failing clause evaluations in total; at most 3 reported per (carrier, clause), smallest trees first")
     ctx.rule("every sorted parent table with <= %d nodes x {lattice coordinates with coincident points / zero-length segments, walk coordinates}, root type 1, "
              "plus seeded random trees of 7-16 nodes (one third binary) with jittered coordinates; every clause against an independent loop implementation of the "
-             "definitions (Sholl at all half-integer radii up to rmax+1, mid-points between node radii, and step counts 1, 3, 20); seeded 3-tree populations. "
+             "definitions (Sholl at all half-integer radii up to rmax+1, mid-points between node radii, and step counts 1, 3, 20); seeded 3-tree populations; Populations of 1..3 populations x 1..3 trees. "
              "Non-trivial = at least one edge" % (6 if ctx.tier == "quick" else 7), exhaustive=False)
 
 
@@ -538,7 +575,9 @@ def replay(spec):
 
     c = C()
     rep = Rep(c, cap=10 ** 9)
-    if spec.get("kind") == "population":
+    if spec.get("kind") == "populations":
+        check_populations(rep, [[(s["pid"], np.array(s["xyz"])) for s in pop] for pop in spec["layout"]])
+    elif spec.get("kind") == "population":
         check_population(rep, [(s["pid"], np.array(s["xyz"])) for s in spec["trees"]])
     else:
         check_tree(rep, spec["pid"], np.array(spec["xyz"]))
